@@ -65,12 +65,14 @@ Fixpoint drain (tab : list (Z * cls)) (validtab : list Z) (n : nat) (st : rfstat
 Definition fobserve (st : rfstate) : fobs :=
   FObs (match f_mode st with Closed => true | Watching => false end) (m_rules (snd (f_hs st))).
 
-(* each world operation is followed by a drain; the observation is taken after the drain *)
-Fixpoint fsim (tab : list (Z * cls)) (validtab : list Z) (st : rfstate) (ops : list (fop Z)) : list fobs :=
+(* a group of world operations happens without the watcher goroutine getting to run in between
+   (e.g. the file is renamed away and a new file is put at the path while the goroutine sleeps
+   before its first re-watch attempt); then the queue is drained and the observation taken *)
+Fixpoint fsim (tab : list (Z * cls)) (validtab : list Z) (st : rfstate) (ops : list (list (fop Z))) : list fobs :=
   match ops with
   | [] => []
-  | o :: rest =>
-      let st1 := fstep (rconvert tab) rpeq (rtyped false) (rload validtab) rclear (-1) st o in
+  | g :: rest =>
+      let st1 := fold_left (fstep (rconvert tab) rpeq (rtyped false) (rload validtab) rclear (-1)) g st in
       let st2 := drain tab validtab (length (f_queue st1)) st1 in
       fobserve st2 :: fsim tab validtab st2 rest
   end.
@@ -164,7 +166,7 @@ Inductive case :=
         (ops : list (Z * bool)) (observed : list (Z * list Z))
     (* deliveries to a property handler *)
 | FCase (id : Z) (validtab : list Z) (tab : list (Z * cls)) (init_content : Z)
-        (ops : list (fop Z)) (init_obs : fobs) (observed : list fobs)
+        (ops : list (list (fop Z))) (init_obs : fobs) (observed : list fobs)
     (* a RefreshableFileDataSource driven through file operations; payload id -1 is Handle(nil) *)
 | WCase (id : Z) (kind : Z) (payload : jbytes) (insub : bool) (enc_of : option (list wrule))
         (ftab : list (jbytes * Z)) (itab : list (jbytes * option Z)) (observed : gres)
@@ -189,7 +191,7 @@ Definition case_ok (c : case) : bool :=
       | Some l => forallb (rule_ok sch) l && la_eqb (encode sch l) payload
       | None => true
       end &&
-      (if insub then res_match ftab itab (decode sch payload) observed else true)
+      (if insub then res_match ftab itab (parser_result kind (decode sch payload)) observed else true)
   | SCase _ kind gs =>
       if kind =? 5 then schema_eqb item_schema gs else schema_eqb (schema_of kind) gs
   end.
